@@ -148,6 +148,30 @@ func minInt(a, b int) int {
 	return b
 }
 
+// c19Reference returns the sequential text of a twin of src.
+func c19Reference(src *moduleSource) (S string, skip string) {
+	simrt.Load((&Tape{}).config())
+	simrt.SeamsOn(true, false)
+	defer simrt.SeamsOn(false, false)
+	pan, _ := protect(func() {
+		simCall(func() {
+			twin, err := src.Build()
+			if err != nil {
+				skip = "module rejected by the parser"
+				return
+			}
+			S = twin.String()
+			if again := twin.String(); again != S {
+				skip = "module text changes between two prints (C14)"
+			}
+		})
+	})
+	if pan {
+		skip = "String() panics (not C19's business)"
+	}
+	return S, skip
+}
+
 // c19Episode runs the steps of sc on a module built from src and returns the
 // outcome of the first failing step (nil if all pass), its index, and per-step
 // outcomes for the counters.
@@ -155,24 +179,28 @@ func c19Episode(sc *C19Scenario, src *moduleSource, S string) (bad *c19Outcome, 
 	simrt.Load((&Tape{}).config())
 	simrt.SeamsOn(true, false)
 	defer simrt.SeamsOn(false, false)
-	m, err := src.Build()
-	if err != nil {
-		return nil, 0, nil, "module rejected by the parser"
-	}
-	if sc.Start == "printed" {
-		if p, _ := protect(func() { _ = m.String() }); p {
-			return nil, 0, nil, "String() panics (not C19's business)"
+	simCall(func() {
+		m, err := src.Build()
+		if err != nil {
+			skip = "module rejected by the parser"
+			return
 		}
-	}
-	for i := range sc.Steps {
-		o := c19Run(&sc.Steps[i], m, S)
-		outs = append(outs, o)
-		if o.class != "" && bad == nil {
-			bad, badStep = o, i
-			break
+		if sc.Start == "printed" {
+			if p, _ := protect(func() { _ = m.String() }); p {
+				skip = "String() panics (not C19's business)"
+				return
+			}
 		}
-	}
-	return bad, badStep, outs, ""
+		for i := range sc.Steps {
+			o := c19Run(&sc.Steps[i], m, S)
+			outs = append(outs, o)
+			if o.class != "" && bad == nil {
+				bad, badStep = o, i
+				break
+			}
+		}
+	})
+	return bad, badStep, outs, skip
 }
 
 func c19Search() {
@@ -192,18 +220,9 @@ func c19Search() {
 		if failures >= *flagMaxFail || overBudget() {
 			break
 		}
-		twin, err := src.Build()
-		if err != nil {
-			sum.Skipped["module rejected by the parser"]++
-			continue
-		}
-		var S string
-		if p, _ := protect(func() { S = twin.String() }); p {
-			sum.Skipped["String() panics (not C19's business)"]++
-			continue
-		}
-		if again := twin.String(); again != S {
-			sum.Skipped["module text changes between two prints (C14)"]++
+		S, skipWhy := c19Reference(src)
+		if skipWhy != "" {
+			sum.Skipped[skipWhy]++
 			continue
 		}
 		runEpisode := func(sc *C19Scenario) {
@@ -313,11 +332,10 @@ func c19Replay(raw json.RawMessage) *outRec {
 	if src == nil {
 		return &outRec{T: "note", Class: "harness-error", Detail: "unknown module " + sc.Module}
 	}
-	twin, err := src.Build()
-	if err != nil {
-		return &outRec{T: "note", Class: "harness-error", Detail: "module does not parse: " + err.Error()}
+	S, skipWhy := c19Reference(src)
+	if skipWhy != "" {
+		return &outRec{T: "note", Class: "skipped", Detail: skipWhy}
 	}
-	S := twin.String()
 	bad, badStep, _, skip := c19Episode(&sc, src, S)
 	if skip != "" {
 		return &outRec{T: "note", Class: "skipped", Detail: skip}
